@@ -115,7 +115,7 @@ def run(name, checks, inplace=False):
             t = time.time()
             p = sh("cd %s && MODELX_REPO=%s ./check %s --tier %s" % (vroot, wt, c, os.environ.get("SEEDED_TIER", "quick")))
             lines = [l for l in p.stdout.split("\n") if l.startswith(("VIOLATION", "KNOWN", "INFRA"))]
-            out[c] = {"rc": p.returncode, "lines": lines[:4], "s": round(time.time() - t, 1)}
+            out[c] = {"rc": p.returncode, "lines": sorted(lines, key=lambda l: not l.startswith("VIOLATION"))[:4], "s": round(time.time() - t, 1)}
             print(name, c, out[c])
     finally:
         if inplace:
